@@ -43,7 +43,7 @@ def run_node(ctx, pid):
 def judge(ctx, res, wanted=None):
     trace = os.path.join(res["_out"], "trace.ndjson")
     events = vlib.read_ndjson(trace)
-    fails = ctx.trace_judge("node", "NodeTrace.tla", "Trace_Node.cfg", trace, timeout=3000)
+    fails = ctx.trace_judge_parts("node", "NodeTrace.tla", "Trace_Node.cfg", events, max_events=30000, timeout=3000, workers=4)
     ctx.traces_validated += res.get("traces", 0)
     ctx.extra["trace_events"] = len(events)
     for f in fails:
